@@ -191,6 +191,7 @@ struct FakeTransport : public Transport {
   std::vector<uint8_t> buf, org;
   bool valid = false;
   bool openFails = false;
+  bool stepReadOk = false; int stepConsumed = 0;   // per step: did a read hand out data, and was anything taken ("deaf" device)
   FakeTransport() : Transport("fake", 0) {}
   string getTransportInfo() const override { return "fake"; }
   result_t openInternal() override { return RESULT_OK; }
@@ -297,10 +298,12 @@ struct FakeTransport : public Transport {
       if (ctl && C.enhanced) frame(0xb /*ERROR_EBUS*/, 0, 0);
     }
     *data = buf.data(); *len = buf.size();
+    stepReadOk = stepReadOk || !buf.empty();
     return RESULT_OK;
   }
   void readConsumed(size_t n) override {
     if (n > buf.size()) n = buf.size();
+    stepConsumed += (int)n;
     char b[64];
     for (size_t i = 0; i < n; i++) {
       uint8_t x = buf[i];
@@ -565,8 +568,11 @@ static bool execToken(const std::string& tok, Input* in) {
     else if (f == "O=f") g_t->openFails = true;
   }
   g_in = in;
+  g_t->stepReadOk = false; g_t->stepConsumed = 0;
   VerifAccess::iter(g_h, g_d);
   g_in = nullptr; g_t->openFails = false;
+  // plain device: every read that hands out buffered bytes is followed by the consumption of at least one of them
+  if (!C.enhanced && g_t->stepReadOk && g_t->stepConsumed == 0 && g_t->valid) ev("[\"unread\"," + std::to_string(g_t->buf.size()) + "]");
   if (C.autoPoll) for (size_t r = 0; r < g_reqs.size(); r++) {
     VReq* q = g_reqs[r];
     if (q->kind != 1 && q->status == 2 && VerifAccess::pollFinished(g_h, q)) {
